@@ -25,15 +25,17 @@ import Proofs.SeededTotal
 import Proofs.SeedingGlue
 import Proofs.SecondPass
 import Proofs.Total
+import Proofs.Ties
 namespace Coma.Props
 open Coma Coma.Spec
 
 /-- building a candidate from any list of seed peaks never raises (pairing, scoring, the segment
-    scan, chaining, the whole conflict-resolution pass, the header) -/
+    scan, chaining, the whole conflict-resolution pass, the header) — for weakly ascending label coordinates, i.e. also
+    for molecules with coincident labels -/
 theorem C07_candidate_total (P : Params) (C : ChainCfg) (hP : GoodParams P) (ref qry : OMap) (peaks : List Int)
-    (rev : Bool) (it : Int) (hr : StrictAscending ref.positions) (hq : StrictAscending qry.positions) :
+    (rev : Bool) (it : Int) (hr : Ascending ref.positions) (hq : Ascending qry.positions) :
     ∃ row, alignerAlign P C ref qry peaks rev it = .ok row :=
-  Coma.Proofs.alignerAlign_total P C hP ref qry peaks rev it hr hq
+  Coma.Proofs.alignerAlign_total_weak P C hP ref qry peaks rev it hr hq
 
 /-- the first pass never raises, for any seed table whose seeds name references that were read -/
 theorem C07_first_pass_total (cfg : Cfg) (hP : GoodParams cfg.P) (refs : List OMap) (t : SeedTable) (qs : List OMap) (it : Int)
